@@ -51,4 +51,12 @@ PROPS["C17"] = {
     "assumptions": ["each blocklist operation is atomic (blockMu held for the whole body)", "libp2p consults InterceptPeerDial / InterceptSecured for every dial / secured connection"],
 }
 
+PROPS["C11"] = {
+    "harness": {"kind": "cmd", "cmd": "c11"},
+    "level_text": "Theorems: the check answers yes iff both reads were obtained and decoded and amount >= minimum (any call or decoding failure yields no; a return shorter than 32 bytes is a failure); for all values < 2^256 the decoded words are the on-chain numbers (big-endian round trip); stake/prepay hands exactly (registry address, amount as value, 4-byte selector) to the evm client and reports success iff send succeeded and the receipt has status 1. Tied to both real wrappers over the repository's mock evm client: exhaustive fault placement x return shapes {error, empty, 31, 32, 33, 64 bytes} x boundary value pairs up to 2^256-1 x every receipt outcome.",
+    "level_note": "Trusted: Lean kernel; differential harness; go-ethereum abi.Pack/Unpack (modelled as: <32 bytes error, else first word big-endian; compared on every case); contracts-abi metadata for selectors.",
+    "nontrivial_rule": "distinct (tag, which registry, model observation) cells",
+    "assumptions": ["the evm client's WaitForReceipt returns either an error or the transaction's receipt"],
+}
+
 NOT_CLAIMED = {}
